@@ -314,8 +314,18 @@ thread_local! {
     pub static ARENA: RefCell<Arena> = RefCell::new(Arena::new());
 }
 
+thread_local! {
+    /// true while the runtime itself is working (its own bookkeeping allocations are not the code under test's)
+    static IN_RUNTIME: std::cell::Cell<bool> = const { std::cell::Cell::new(false) };
+}
+pub fn in_runtime() -> bool {
+    IN_RUNTIME.try_with(|f| f.get()).unwrap_or(true)
+}
 pub fn with<R>(f: impl FnOnce(&mut Arena) -> R) -> R {
-    ARENA.with(|a| f(&mut a.borrow_mut()))
+    let prev = IN_RUNTIME.with(|x| x.replace(true));
+    let r = ARENA.with(|a| f(&mut a.borrow_mut()));
+    IN_RUNTIME.with(|x| x.set(prev));
+    r
 }
 
 /// Start a fresh run: clears terms, decisions, hashes; installs the decision prefix.
